@@ -124,6 +124,23 @@ func check(c Case) error {
 	if err := compareRoundTrip("Read(Write(x))", gz, gzTrees, want, trees); err != nil {
 		return err
 	}
+	// the written file holds one record: the multi-record readers must return exactly that one
+	var many, manyParsed []poly.Sequence
+	if err := safely("ReadMulti/ParseMulti", func() { many = genbank.ReadMulti(p); manyParsed = genbank.ParseMulti(text) }); err != nil {
+		return err
+	}
+	for _, r := range []struct {
+		what string
+		recs []poly.Sequence
+	}{{"ReadMulti(Write(x))", many}, {"ParseMulti(Build(x))", manyParsed}} {
+		if len(r.recs) != 1 {
+			return vk.Errf("%s returns %d records, one was written", r.what, len(r.recs))
+		}
+		gm, gmTrees := gbk.ExpectedOf(r.recs[0])
+		if err := compareRoundTrip(r.what, gm, gmTrees, want, trees); err != nil {
+			return err
+		}
+	}
 	// (3) an independent reader recovers the same record from the written text
 	exclude := false
 	if !c.NoExclusion && vk.KnownActive(knownWriter) {
